@@ -36,6 +36,9 @@ func r1Values() []string {
 		`alpn="h2" ech="` + b64(0) + `"`,               // already current for list 0
 		`ech=` + b64(1) + ` no-default-alpn`,           // unquoted, already current for list 1
 		"alpn=\"h2\th3\"  ech=\"b2xk\" port=8443",      // a tab inside a quoted value, two blanks between parameters
+		`ech="b2xk" alpn="h3" ech="` + b64(0) + `"`,    // two entries, the LAST one is current for list 0: still two entries
+		`alpn="h2" key65400="x ech=y z" ech="b2xk"`,    // a quoted value with blanks, one of its words looks like an ech entry
+		`alpn="h2" ech`, // the key alone (an empty value in presentation format)
 	}
 }
 
@@ -142,7 +145,7 @@ func tokens(v string) []string {
 
 func splitValue(v string) (others []string, echs []string) {
 	for _, t := range tokens(v) {
-		if k, val, ok := strings.Cut(t, "="); ok && k == "ech" {
+		if k, val, _ := strings.Cut(t, "="); k == "ech" { // (the key alone is an entry with an empty value)
 			echs = append(echs, strings.Trim(val, `"`))
 		} else {
 			others = append(others, t)
@@ -210,6 +213,23 @@ func run(r *ev.Run, sc scenario) {
 			r.Violation("result-count", fmt.Sprintf("%s: %d results for %d targets", tag, len(results), len(targets)), sc)
 			return
 		}
+		for ti, res := range results {
+			// a result is there to be looked at: printing it, or its error, must work
+			func() {
+				defer func() {
+					if p := recover(); p != nil {
+						r.Violation("result-cannot-be-printed", fmt.Sprintf("%s target %d: status code %d; String()/Err().Error() panics: %v", tag, ti, res.Code, p), sc)
+					}
+				}()
+				_ = res.String()
+				if err := res.Err(); err != nil {
+					_ = err.Error()
+				}
+				if res.Error != nil {
+					_ = res.Error.Error()
+				}
+			}()
+		}
 		newVal := b64(c.Config)
 		// model: walk the targets in order over the 'before' store
 		cur := map[string]string{}
@@ -237,10 +257,8 @@ func run(r *ev.Run, sc scenario) {
 			if exists {
 				val := strings.SplitN(old, "|", 3)[2]
 				_, echs := splitValue(val)
-				if len(echs) > 0 && echs[len(echs)-1] == newVal && len(echs) == 1 {
+				if len(echs) == 1 && echs[0] == newVal {
 					want = publish.StatusNoChange
-				} else if len(echs) > 0 && echs[len(echs)-1] == newVal {
-					want = publish.StatusNoChange // several entries: outside the alphabet (see DESIGN), tolerated
 				} else {
 					want = publish.StatusUpdated
 				}
@@ -283,6 +301,10 @@ func run(r *ev.Run, sc scenario) {
 			// whatever else happened in the call: a target reported as updated is stored with exactly the new list
 			if reportedUpdated[key] && (len(ne) != 1 || ne[0] != newVal) {
 				r.Violation("update-reported-but-not-stored", fmt.Sprintf("%s: record %s was reported as updated but the store holds ech entries %q (want [%q]); the API had answered %s to request %d", tag, key, ne, newVal, sc.FailKind, sc.FailAt), sc)
+			}
+			// "afterwards the stored value holds exactly one ech entry equal to the given list": also when nothing was written
+			if !failed && (len(ne) != 1 || ne[0] != newVal) {
+				r.Violation("ech-entries-after-call", fmt.Sprintf("%s: record %s holds ech entries %q after the call (stored value %q), want exactly [%q]", tag, key, ne, np[2], newVal), sc)
 			}
 			mp := strings.SplitN(cur[key], "|", 3)
 			_, me := splitValue(mp[2])
